@@ -3,6 +3,7 @@ package c20
 import (
 	"bytes"
 	"compress/gzip"
+	"context"
 	"fmt"
 	"io"
 	"os"
@@ -15,6 +16,7 @@ import (
 	"testing"
 
 	gogoproto "github.com/cosmos/gogoproto/proto"
+	"google.golang.org/grpc"
 	"google.golang.org/protobuf/encoding/protowire"
 	"google.golang.org/protobuf/proto"
 	"google.golang.org/protobuf/reflect/protodesc"
@@ -659,6 +661,42 @@ func checkGRPC(it descItem, classes []string) (error, bool, []string) {
 		}
 		if !sameStrings(names(sd.Method), am) {
 			return pbt.Failf("C20/desc-grpc", "%s: gRPC methods %v differ from the protobuf service descriptor %v (%s side)", it.Name, am, names(sd.Method), side), false, classes
+		}
+	}
+	// the routes the generated code really uses: the method a generated client invokes and the method a generated
+	// server handler reports to interceptors, in both families, against "/<service>/<method>" of the descriptor
+	cc := &recConn{}
+	clients, ok := grpcClients(cc)[it.Name]
+	if !ok {
+		return pbt.Failf("harness/no-grpc-client", "%s: no generated client in the harness table", it.Name), false, classes
+	}
+	for i, side := range []string{"api", "gogoproto"} {
+		sd := []*grpc.ServiceDesc{p.API, p.Gogo}[i]
+		cl := reflect.ValueOf(clients[i])
+		if cl.NumMethod() != len(am) {
+			return pbt.Failf("C20/desc-grpc", "%s: the %s client has %d methods, the service %d", it.Name, side, cl.NumMethod(), len(am)), false, classes
+		}
+		for _, md := range sd.Methods {
+			want := "/" + it.Name + "/" + md.MethodName
+			fn := cl.MethodByName(md.MethodName)
+			if !fn.IsValid() {
+				return pbt.Failf("C20/desc-grpc", "%s: the %s client has no method %s", it.Name, side, md.MethodName), false, classes
+			}
+			cc.methods = nil
+			fn.Call([]reflect.Value{reflect.ValueOf(context.Background()), reflect.New(fn.Type().In(1).Elem())})
+			if len(cc.methods) != 1 || cc.methods[0] != want {
+				return pbt.Failf("C20/grpc-route", "%s: the %s client's %s invokes %v, the service method is %s", it.Name, side, md.MethodName, cc.methods, want), false, classes
+			}
+			var seen string
+			_, err := md.Handler(nil, context.Background(), func(interface{}) error { return nil },
+				func(_ context.Context, _ interface{}, info *grpc.UnaryServerInfo, _ grpc.UnaryHandler) (interface{}, error) {
+					seen = info.FullMethod
+					return nil, nil
+				})
+			if err != nil || seen != want {
+				return pbt.Failf("C20/grpc-route", "%s: the %s server handler of %s reports %q (%v), the service method is %s", it.Name, side, md.MethodName, seen, err, want), false, classes
+			}
+			classes = append(classes, "grpc-route")
 		}
 	}
 	for range am {
